@@ -61,18 +61,13 @@ def is_err(v):
     return v is not None
 
 
-def solve_with_truth(e, pins, extra=(), timeout=20000):
+def solve_with_truth(e, pins, extra=(), timeout=20000, rounds=8):
     """exact model of the path condition after pinning integer symbols to concrete values (pins: list of
-    (term, int)) and replacing the uninterpreted curve functions / inverses by their true values at the
-    pinned arguments.  What remains is linear, so the exact solver answers quickly."""
+    (term, int)) with the uninterpreted curve functions / inverses replaced by their true values: first at the
+    pinned arguments, then (refinement loop) at whatever group elements the model chooses, until the model is
+    consistent with the real curve.  With the products gone the remaining constraints are linear."""
     sub = [(t, z3.IntVal(v)) for t, v in pins]
     facts = [t == v for t, v in pins]
-    for key, u in list(e.known_points.items()):
-        uv = z3.simplify(z3.substitute(u, *sub))
-        if z3.is_int_value(uv):
-            pt = ref.mul(uv.as_long() % N)
-            facts.append(X(u) == (pt[0] if pt else 0))
-            facts.append(Y(u) == (pt[1] if pt else 0))
     for v, r, m in e.inv_facts:
         vv = z3.simplify(z3.substitute(v, *sub))
         if z3.is_int_value(vv) and vv.as_long() % m:
@@ -85,6 +80,33 @@ def solve_with_truth(e, pins, extra=(), timeout=20000):
         s.add(f)
     for x in extra:
         s.add(x)
-    if s.check() == z3.sat:
-        return s.model()
+    for rnd in range(rounds):
+        rr = s.check()
+        if os.environ.get('VERIF_DEBUG'):
+            print('  [truth round %d] %s' % (rnd, rr), file=sys.stderr)
+        if rr != z3.sat:
+            return None
+        m = s.model()
+        consistent = True
+        for key, u in list(e.known_points.items()):
+            uv = m.eval(u, model_completion=True).as_long()
+            pt = ref.mul(uv % N)
+            tx, ty = (pt[0], pt[1]) if pt else (0, 0)
+            s.add(z3.Implies(u == uv, z3.And(X(u) == tx, Y(u) == ty)))
+            if m.eval(X(u), model_completion=True).as_long() != tx or m.eval(Y(u), model_completion=True).as_long() != ty:
+                consistent = False
+                # try to keep this group element where the model put it (the digest usually absorbs the change)
+                s.push()
+                s.add(u == uv)
+                if s.check() == z3.sat:
+                    m = s.model()
+                else:
+                    s.pop()
+        for v, r, mm in e.inv_facts:
+            vv = m.eval(v, model_completion=True).as_long()
+            if vv % mm and m.eval(r, model_completion=True).as_long() != pow(vv, -1, mm):
+                consistent = False
+                s.add(z3.Implies(v == vv, r == pow(vv, -1, mm)))
+        if consistent:
+            return m
     return None
